@@ -533,6 +533,11 @@ func (u *Upstream) withAckTimeoutCh(ctx context.Context, inCh <-chan *message.Up
 		defer cancel()
 		select {
 		case <-timeoutCtx.Done():
+			if ctx.Err() != nil {
+				// Cancelled (disconnect or close), not an ack timeout: report nothing, so that the
+				// stored chunk stays available for retransmission after the resume.
+				return
+			}
 			select {
 			case <-ctx.Done():
 			case <-u.ctx.Done():
